@@ -691,6 +691,38 @@ example :
     ∧ run (mk true) 1 = .error (.err "policy-revoke-not-closed") :=
   ⟨rfl, rfl⟩
 
+/-- **`activate_initial_commitment` on its generated body (channel.rs:2537).**  A reply means: the counter was 0, a validated
+    commitment was staged, the new state is `set_next_holder_commit_num(1, staged)` of the state with the staging slot
+    cleared, that state was written successfully, and the reply is the point of commitment 1 — no secret leaves here. -/
+theorem C02_fn_activate_initial_commitment
+    (setNextES : EnforcementState CommitmentSignatures → Nat → CommitmentInfo2 → CommitmentSignatures → EnforcementState CommitmentSignatures)
+    (self self' : Channel CommitmentSignatures InMemorySigner ChannelId) (pt : PublicKey)
+    (h : Channel.activate_initial_commitment setNextES persist unchecked self = .ok (self', pt)) :
+    self.enforcement_state.next_holder_commit_num = 0 ∧
+    ∃ info sigs,
+      self.enforcement_state.next_holder_commit_info = some (info, sigs) ∧
+      self' = { self with enforcement_state :=
+                  setNextES { self.enforcement_state with next_holder_commit_info := none } 1 info sigs } ∧
+      persist self'.enforcement_state = .ok () ∧ pt = unchecked 1 := by
+  unfold Channel.activate_initial_commitment at h
+  by_cases h0 : self.enforcement_state.next_holder_commit_num = 0
+  · have hb : (self.enforcement_state.next_holder_commit_num != 0) = false := by simp [h0]
+    rw [hb] at h
+    simp only [Bool.false_eq_true, if_false] at h
+    cases hst : self.enforcement_state.next_holder_commit_info with
+    | none => rw [hst] at h; simp [Rs.fail] at h
+    | some st =>
+      obtain ⟨info, sigs⟩ := st
+      rw [hst] at h
+      dsimp only at h
+      obtain ⟨u, hper, h⟩ := fc_bind_ok h
+      have h' := Except.ok.inj h
+      cases h'
+      exact ⟨h0, info, sigs, rfl, rfl, by cases u; exact hper, rfl⟩
+  · have hb : (self.enforcement_state.next_holder_commit_num != 0) = true := by simp [h0]
+    rw [hb] at h
+    simp [Rs.fail] at h
+
 end Revoke
 
 end VlsModel.Props.C02Fn
